@@ -81,4 +81,43 @@ void runGenerations(const Opts& o, long idx, CaseLog& log) {
     log.pre("destroy"); c.reset();
 }
 
+
+// C03 residue sweep: a fixed small object + filler parameters totalling `idx` extra bytes, so that the parameter
+// section length steps through every residue modulo 512.  variant=1: the object is saved, loaded and the LOADED object saved.
+void runResidue(const Opts& o, long idx, CaseLog& log) {
+    typedef ezc3d::ParametersNS::GroupNS::Parameter Param;
+    int variant = (int)o.geti("variant", 0);
+    ezc3d::c3d c;
+    { Param r("RATE"); r.set(std::vector<float>(1, 100.f)); c.parameter("POINT", r); Param a("RATE"); a.set(std::vector<float>(1, 200.f)); c.parameter("ANALOG", a); }
+    c.point("M1"); c.point("M2"); c.analog("EMG");
+    for (int f = 0; f < 3; ++f) {
+        ezc3d::DataNS::Frame fr; ezc3d::DataNS::Points3dNS::Points pts;
+        for (int i = 0; i < 2; ++i) { ezc3d::DataNS::Points3dNS::Point p; p.name(i ? "M2" : "M1"); p.x(1.f + f); p.y(2.f * i); p.z(-3.5f); p.residual(0.25f); pts.point(p); }
+        ezc3d::DataNS::AnalogsNS::Analogs an;
+        for (int s = 0; s < 2; ++s) { ezc3d::DataNS::AnalogsNS::SubFrame sf; ezc3d::DataNS::AnalogsNS::Channel ch; ch.name("EMG"); ch.data(0.5f * s + f); sf.channel(ch); an.subframe(sf); }
+        fr.add(pts, an); c.frame(fr);
+    }
+    long T = idx; const long CAP = 200;
+    for (int k = 0; k < 8; ++k) {
+        long sl = T > CAP ? CAP : T; T -= sl; long dl = T > CAP ? CAP : T; T -= dl;
+        Param p("FILL" + std::to_string(k), std::string((size_t)dl, 'd'));
+        p.set(std::vector<std::string>(1, std::string((size_t)sl, 's')));
+        c.parameter("PAD", p);
+    }
+    char fp[700]; snprintf(fp, sizeof fp, "%s/res_%ld.c3d", o.out.c_str(), idx);
+    Outcome so; log.pre("write"); VF_TRY(so, c.write(fp)); log.ev("save", "filler=" + std::to_string(idx), so);
+    if (so.threw) { log.line("RES %ld save_threw %s", idx, so.cls.c_str()); return; }
+    Snap s = take(c);
+    if (variant == 1) {
+        std::unique_ptr<ezc3d::c3d> l; Outcome lo; log.pre("load"); VF_TRY(lo, l.reset(new ezc3d::c3d(fp))); log.ev("load", "", lo);
+        if (lo.threw) { log.line("RES %ld reload_threw %s", idx, lo.cls.c_str()); return; }
+        Outcome s2; log.pre("write"); VF_TRY(s2, l->write(fp)); log.ev("save_loaded", "", s2);
+        if (s2.threw) { log.line("RES %ld save_threw %s", idx, s2.cls.c_str()); return; }
+        s = take(*l);
+    }
+    snprintf(fp, sizeof fp, "%s/res_%ld.json", o.out.c_str(), idx);
+    writeFileBytes(fp, toJson(s, true));
+    log.line("RES %ld ok", idx);
+}
+
 }  // namespace vf
